@@ -199,6 +199,18 @@ impl Monitor {
         }
         Some(OpCtx { ty: ty.to_string(), op: op.to_string(), st: OpStat::default(), viols: vec![], per_sig: HashMap::new() })
     }
+    /// Like `begin` but present in every shard (the caller splits the work by `self.shard` itself).
+    pub fn begin_unsharded(&mut self, ty: &str, op: &str) -> Option<OpCtx> {
+        if !self.scratch {
+            if let Some(f) = &self.filter {
+                let full = format!("{}::{}", ty, op);
+                if &full != f && ty != f {
+                    return None;
+                }
+            }
+        }
+        Some(OpCtx { ty: ty.to_string(), op: op.to_string(), st: OpStat::default(), viols: vec![], per_sig: HashMap::new() })
+    }
     pub fn end(&mut self, ctx: OpCtx) {
         let key = format!("{}::{}", ctx.ty, ctx.op);
         let e = self.ops.entry(key).or_default();
